@@ -1,3 +1,47 @@
-From RV Require Import Val Syntax.
-Theorem C08_placeholder : True. Proof. exact I. Qed.
-Print Assumptions C08_placeholder.
+(* C08 — temporal bounds denote physical durations whatever the unit notation. *)
+From Coq Require Import ZArith QArith List.
+From RV Require Import Offline Units.
+Local Open Scope Q_scope.
+
+(* the bound in samples times the period is exactly the duration: never rounded *)
+Theorem C08_exact :
+  forall du p pu i b e, (0 < p)%Z -> 0 <= ib i -> 0 <= ie i ->
+    to_samples du p pu i = Ok (b, e) ->
+    inject_Z (Z.of_nat b) * period_ns p pu == begin_ns du i /\
+    inject_Z (Z.of_nat e) * period_ns p pu == end_ns du i.
+Proof. exact to_samples_exact. Qed.
+Print Assumptions C08_exact.
+
+(* a bound that is not an integer multiple of the sampling period is rejected *)
+Theorem C08_reject :
+  forall du p pu i,
+    is_int (begin_ns du i / period_ns p pu) = false \/ is_int (end_ns du i / period_ns p pu) = false ->
+    to_samples du p pu i = Rtamt.
+Proof. exact to_samples_reject. Qed.
+Print Assumptions C08_reject.
+
+(* equivalent spellings (units on either or both ends, default unit, period unit) give the same bounds *)
+Theorem C08_spelling :
+  forall du1 p1 pu1 i1 du2 p2 pu2 i2,
+    begin_ns du1 i1 == begin_ns du2 i2 -> end_ns du1 i1 == end_ns du2 i2 ->
+    period_ns p1 pu1 == period_ns p2 pu2 ->
+    to_samples du1 p1 pu1 i1 = to_samples du2 p2 pu2 i2.
+Proof. exact to_samples_spelling. Qed.
+Print Assumptions C08_spelling.
+
+(* dense time: the bound handed to the operators, in default units, denotes the duration *)
+Theorem C08_dense :
+  forall du i,
+    fst (to_default du i) * inject_Z (uval du) == begin_ns du i /\
+    snd (to_default du i) * inject_Z (uval du) == end_ns du i.
+Proof. exact to_default_exact. Qed.
+Print Assumptions C08_dense.
+
+Example C08_nonvacuous :
+  (* once[500ms, 1.5] with default unit s and a period of 500000 us = once[1000000us:1500ms] ... = samples (1,3) *)
+  to_samples US 500000 UUS {| ib := 500; ie := 3#2; ibu := Some UMS; ieu := None |} = Rtamt /\
+  to_samples US 500000 UUS {| ib := 1#2; ie := 1500; ibu := None; ieu := Some UMS |} = Rtamt /\
+  to_samples US 500000 UUS {| ib := 1#2; ie := 3#2; ibu := None; ieu := None |} = Ok (1%nat, 3%nat) /\
+  to_samples UMS 500 UMS {| ib := 500000; ie := 1500; ibu := Some UUS; ieu := Some UMS |} = Ok (1%nat, 3%nat) /\
+  to_samples US 1 US {| ib := 500; ie := 1500; ibu := Some UMS; ieu := Some UMS |} = Rtamt.
+Proof. repeat split; vm_compute; reflexivity. Qed.
